@@ -5,6 +5,7 @@ whether (and how fast) a VIOLATION was printed. The scratch copy and its build o
 afterwards. Nothing under /verif/replays or /verif/evidence is touched.
 
 usage: sensitivity.py <mutant-id>...        (ids from tools/mutants.py; 'all' for every one)
+       sensitivity.py seeded                (every change under /verif/seeded)
        sensitivity.py --patch <file> <PROP> (a unified diff relative to the repository root)
        options: --tier quick|thorough  --keep  --with-suite
 """
@@ -70,6 +71,8 @@ def record(line, m):
         line = dict(line, id=key, kind="seeded")
     else:
         line = dict(line, kind="planted", fault=bool(m.get("fault")), file=m["file"])
+    if key in data and "note" in data[key] and "note" not in line:
+        line["note"] = data[key]["note"]
     data[key] = line
     with open(RESULTS + ".tmp", "w") as f:
         json.dump(data, f, indent=1, sort_keys=True)
@@ -89,7 +92,16 @@ def main():
         keep = True
         args.remove("--keep")
     results = []
-    if args and args[0] == "--patch":
+    if args and args[0] == "seeded":
+        # every confirmed independently written change under /verif/seeded
+        todo = []
+        for sid in sorted(os.listdir(os.path.join(VERIF, "seeded"))):
+            mp = os.path.join(VERIF, "seeded", sid, "meta.json")
+            if os.path.exists(mp):
+                with open(mp) as f:
+                    meta = json.load(f)
+                todo.append({"id": sid, "prop": meta["property"], "patch": os.path.join(VERIF, "seeded", sid, "patch.diff")})
+    elif args and args[0] == "--patch":
         todo = [{"id": os.path.basename(args[1]), "prop": args[2], "patch": os.path.abspath(args[1])}]
     else:
         ids = [m["id"] for m in mutants.MUTANTS] if args == ["all"] else args
